@@ -7,7 +7,8 @@ the same-named child query.  Levenshtein/ordering/caps clauses are value-level: 
 """
 from .. import facts
 from ..prov import Prov, flatten, field_names
-from ..util import keyname, calls, last, with_closures, norm, place_of
+from ..util import keyname, calls, last, with_closures, norm, place_of, fns_by_key
+from ..common import arg_roots, inst_of, def_of, method
 
 LEVEL = "other"
 TRAIT = "harper_core::spell::dictionary::Dictionary"
@@ -89,6 +90,7 @@ def answer_sources(p, f, allowed):
 def run(ck, tier):
     _run(ck, tier)
     add_always(ck, facts.load(), "R-C15-merged")
+    _twin_automata(ck, facts.load())
 
 
 def _run(ck, tier):
@@ -399,3 +401,40 @@ def add_always(ck, p, rule):
         ck.refuted(rule, key, f.loc(on_hash[0][2]), "a child is skipped when its hash is already among child_hashes (%s, line %d): equal 64-bit hashes do not mean equal word lists (hash_dictionary feeds the characters of all words back to back), so a different dictionary can be dropped and its words vanish from every query of the merged dictionary" % (on_hash[0][0], on_hash[0][2]))
     else:
         ck.undecided(rule, key, f.span, "a path through add_dictionary does not push the child (tests: %s); whether the skipped child is really one already held is not decided" % (why[:3] or wit))
+
+
+# ---------------------------------------------------------------------------------------------------
+def _twin_automata(ck, p):
+    """FstDictionary::fuzzy_match runs two Levenshtein automata over the word map - one for the query,
+    one for its lower-case form - and merges the two result streams *positionally* (zip).  That is only
+    sound when the two streams enumerate the same words, which for a lower-case query they do because
+    the two automata are then built from the same string.  Both strings must therefore come from the
+    same normalised query; the lower-case one may differ by the case conversion only."""
+    rule = "R-C15-twin"
+    ck.rule(rule, "FstDictionary::fuzzy_match builds its two Levenshtein automata from one and the same normalised query string (the second through a case conversion of the first, nothing else): their result streams are merged position by position, so for a lower-case query both have to enumerate the same words")
+    byk = fns_by_key(p)
+    fs = [f for f in byk.get("<FstDictionary as Dictionary>::fuzzy_match", [])]
+    if not ck.anchor(rule, "<FstDictionary as Dictionary>::fuzzy_match", fs):
+        return
+    f = fs[0]
+    ck.saw(f)
+    pv = Prov(f)
+    dfas = [(bi, t) for bi, t in f.calls() if last(norm(inst_of(t) or def_of(t) or "")) in ("build_dfa", "build_prefix_dfa") or "levenshtein" in norm(inst_of(t) or "").lower() and method(t) in ("build_dfa", "build_prefix_dfa")]
+    key = "FstDictionary::fuzzy_match:queries"
+    if len(dfas) < 2:
+        ck.proved(rule, key, f.span, "%d automaton is built: no positional merge of two streams to keep consistent" % len(dfas))
+        return
+    srcs = []
+    for bi, t in dfas:
+        qs = t["args"][-1]
+        names = {last(norm(o[3] or o[2] or "")) for o in arg_roots(f, pv, qs) if o[0] == "call"}
+        srcs.append((names, t["ln"]))
+    norm_in = ["normalized" in n for n, _ in srcs]
+    if all(norm_in):
+        extra = sorted(set.union(*[n for n, _ in srcs]) - set.intersection(*[n for n, _ in srcs]))
+        ck.proved(rule, key, f.loc(srcs[0][1]), "all %d automata are built from the normalised query (differences between their derivations: %s)" % (len(dfas), extra or "none"))
+    elif any(norm_in):
+        i = norm_in.index(False)
+        ck.refuted(rule, key, f.loc(srcs[i][1]), "one automaton is built from the normalised query, another from a string that did not pass normalisation (derived through %s): for a lower-case query that normalisation changes - a typographic apostrophe, as in can\u2019t - the two automata accept different words, the two result streams are no longer aligned, and the positional merge drops words within the bound and reports distances to the other string" % sorted(srcs[i][0])[:5])
+    else:
+        ck.undecided(rule, key, f.loc(srcs[0][1]), "neither automaton's query is recognisably derived from the normalised query; whether the two result streams stay aligned is not decided")
